@@ -34,6 +34,7 @@ func init() {
 			{Name: "hist", Run: runHist},
 			{Name: "steporder", Run: runStepOrder},
 			{Name: "primitives", Run: runPrimitives},
+			{Name: "poison", Run: runPoison},
 			{Name: "attrs", Run: runAttrs},
 			{Name: "stack", Run: runStack},
 			{Name: "access", Run: runAccess},
